@@ -78,7 +78,7 @@ def local_spelling_rule(ctx, chk, rule):
                    "for them and an unknown pytz zone name (UnknownTimeZoneError escapes) here" % " ".join(ast.unparse(c).split()),
                    key={"function": f.key, "construct": "local test " + " ".join(ast.unparse(c).split())[:50]},
                    file=f.file, function=f.qual, line=c.lineno, text=" ".join(ast.unparse(c).split()))
-    chk.floor(rule, n, 7, "tests whether TIMEZONE means the local zone")
+    chk.floor(rule, n, 5, "tests whether TIMEZONE means the local zone")
 
 
 def settings_forwarding_rule(ctx, chk, rule):
